@@ -38,6 +38,18 @@ P.update({
  "C16": dict(live=True, cat="proof", technique="Coq proof of raw (de)serialisation incl. truncated streams (overlay model of istream::read) + differential correspondence at every truncation offset under ASan, cereal archives compared byte for byte",
    text="deserialize (serialize ws ++ rest) = (ws, rest, ok), exact length, little-endian limbs, every truncation fails, and after a short read the object holds restored-prefix ++ old-suffix (so nothing outside is written). Correspondence: raw writer/reader, back-to-back streams, truncation at every byte offset with guard objects on both sides under AddressSanitizer, cereal binary / portable binary / JSON archives written and re-read, text form; poly and poly_p.",
    note=TB + "Partial: cereal and the text printer are compared with driver-side models, nothing is proved about them (parse-back theorem for the text form not yet proved)."),
+ "C13": dict(live=True, cat="proof", technique="Coq proof over request histories of the generator state machine (nonce = request number, one seeding) on top of a Gallina Salsa20/20 + differential correspondence with the repository's assembly",
+   text="For every history of fewer than 2^64 requests, request i returns firstn len_i of stream(key, LE64 i) (history_correct), nonces are pairwise distinct, the key is drawn once, the stream is prefix-consistent and the write touches only [off,off+len). Partial: the qhasm assembly is compared with the Gallina Salsa20 (763 requests incl. lengths 0,1,63,64,65,...,multi-block, 20 kB; thorough: > 2^20 bytes and 12 000 consecutive requests), not proved.",
+   note=TB + "Partial: assembly compared, not verified. One process per history (static generator state)."),
+ "C14": dict(live=True, cat="proof", technique="Coq refinement proof (copy-on-write heap of reference-counted cells refines plain values, for all operation sequences; no leak, no double free) + bounded-exhaustive and random operation sequences under ASan/LSan",
+   text="run_refines: for every operation sequence respecting the moved-from discipline the observable value of each handle equals the value-semantics run, with count = number of handles and each cell freed at most once. Correspondence: all sequences of length <= 2 after a shared pair and <= 3 from the empty state (thorough: 3 / 4) over create/copy-construct/copy-assign/move-construct/move-assign/self-assign/element write/const read/transform/scalar and list assignment/expression assignment/compare/destroy on three handles, plus long random sequences; values AND sharing classes compared after every step; sanitizer report = violation.",
+   note=TB + "shared_ptr semantics trusted; sharing observed via address equality."),
+ "C18": dict(live=True, cat="proof", technique="Coq invariant proof over all schedules of an interleaving model (one-time seeding + atomic counter) + schedule-driven correspondence through NFLLIB_VERIF hook points + free-running / TSan stress",
+   text="For every thread count, program and schedule of the model: handed-out nonces are exactly 0..ctr-1 (gap-free), no two requests share one, the key is seeded at most once. The real fastrandombytes.cpp is driven through its hook points by a cooperative scheduler over ALL schedule prefixes of length 9 (2 threads x 2 requests) and 6 (3 x 1) plus random ones; the nonce of each request is identified from the returned bytes and compared with the model; free-running stress on 2..16 threads checks the nonce set is [0,N). Found and fixed: the pinned code reused nonces under threads.",
+   note=TB + "fetch_add atomicity and C++11 thread-safe static initialisation are trusted; real data races only observable at run time (TSan stress in the thorough tier)."),
+ "C19": dict(live=True, cat="proof", technique="Coq proof by induction over OS event lists (all fault sequences, all call sequences) + fault enumeration against the real randombytes.cpp under a scripted OS",
+   text="randombytes_correct / calls_correct: on every event list on which the calls complete the output is exactly the delivered bytes in order, total xlen, at most one successful open ever. Correspondence: randombytes.cpp textually included with open/read/sleep scripted; all fault sequences up to length 4 (thorough 6) over {open fails, -1, 0, short 1, short k-1, full}, multi-call histories, exhausted scripts (must stay blocked), the 2^20 chunk limit; bytes, read sizes, opens, sleeps compared.",
+   note=TB + "Progress (fuel adequacy) is not stated as a theorem; an OS returning more than asked is outside the model."),
 })
 ALL = ["C%02d" % i for i in range(1, 20)]
 checks, na = [], []
@@ -62,7 +74,7 @@ m = {
  "setup_cmd": "./setup.sh",
  "hooks": {"guard": "NFLLIB_VERIF", "enable": "harnesses that need hooks are compiled with -DNFLLIB_VERIF by ./check (only C18)",
            "baseline_off_cmd": "cmake -S /repo -B /repo/_build >/dev/null && cmake --build /repo/_build -j8 >/dev/null && ctest --test-dir /repo/_build -j8 --timeout 900",
-           "source_commits": [], "add_only": True},
+           "source_commits": ["d18a1f3"], "add_only": True},
  "engines": [{"name": "coq-proof+correspondence", "path": "/verif/check", "serves_properties": [c["property_id"] for c in checks],
               "kind_free_text": "Rocq/Coq 8.16 theorems over hand-written executable Gallina models (coq/), params tables regenerated by a translator, extracted OCaml model run against the real library built from /repo on every run"}],
  "checks": checks,
